@@ -1,6 +1,7 @@
 package main
 
 import (
+	"errors"
 	"fmt"
 
 	jschema "github.com/jsightapi/jsight-schema-go-library"
@@ -12,6 +13,19 @@ import (
 func errInfo(err error) string {
 	if err == nil {
 		return "ok"
+	}
+	for i := 0; i < 8; i++ { // fmt.Errorf("...: %w", libErr) wrappers (AddType)
+		if _, ok := err.(jerr.Error); ok {
+			break
+		}
+		if _, ok := err.(interface{ Code() jerr.ErrorCode }); ok {
+			break
+		}
+		u := errors.Unwrap(err)
+		if u == nil {
+			break
+		}
+		err = u
 	}
 	if e, ok := err.(jerr.Error); ok {
 		return fmt.Sprintf("E%d@%d", e.ErrCode(), e.Position())
